@@ -4,6 +4,7 @@ import (
 	"bytes"
 	gocontext "context"
 	"fmt"
+	mrand "math/rand/v2"
 	"sort"
 	"strings"
 	"testing"
@@ -12,6 +13,7 @@ import (
 	"github.com/brutella/hc"
 	"github.com/brutella/hc/accessory"
 	"github.com/brutella/hc/characteristic"
+	hccrypto "github.com/brutella/hc/crypto"
 	"github.com/brutella/hc/hap"
 	"github.com/brutella/hc/service"
 	"pgregory.net/rapid"
@@ -23,6 +25,7 @@ import (
 // C08: concurrent writers never corrupt the encrypted stream.
 
 type C08Scenario struct {
+	Direct    *C08Direct `json:"direct,omitempty"` // connection-level scenario (the other fields are unused then)
 	Seed      uint64   `json:"seed"`
 	NApp      int      `json:"n_app"`
 	AppOps    int      `json:"app_ops"`
@@ -34,7 +37,33 @@ type C08Scenario struct {
 	Sched     []uint16 `json:"sched"`
 }
 
+// C08Direct drives one real hap.Connection with several writer goroutines calling the
+// connection's own Write / WriteEvent concurrently (what any user of the type may do).
+type C08Direct struct {
+	Seed    uint64   `json:"seed"`
+	Writers [][]int  `json:"writers"` // per writer: payload lengths; negative = through WriteEvent
+	Sched   []uint16 `json:"sched"`
+}
+
 func genC08(rt *rapid.T) interface{} {
+	if rapid.IntRange(0, 3).Draw(rt, "layer") == 0 {
+		d := &C08Direct{Seed: rapid.Uint64().Draw(rt, "seed")}
+		nw := rapid.IntRange(2, 4).Draw(rt, "nw")
+		for i := 0; i < nw; i++ {
+			var ls []int
+			k := rapid.IntRange(1, 3).Draw(rt, "k")
+			for j := 0; j < k; j++ {
+				l := rapid.SampledFrom([]int{1, 30, 200, 1024, 1025, 2500}).Draw(rt, "len")
+				if rapid.IntRange(0, 2).Draw(rt, "ev") == 0 {
+					l = -l
+				}
+				ls = append(ls, l)
+			}
+			d.Writers = append(d.Writers, ls)
+		}
+		d.Sched = genSched(rt, 200)
+		return &C08Scenario{Direct: d}
+	}
 	sc := &C08Scenario{Seed: rapid.Uint64().Draw(rt, "seed")}
 	sc.NApp = rapid.IntRange(1, 4).Draw(rt, "napp")
 	sc.AppOps = rapid.IntRange(1, tierScale(4)).Draw(rt, "appops")
@@ -117,8 +146,107 @@ func segmentWrites(stream []byte, writes [][]byte) (int, error) {
 	return n, nil
 }
 
+func runC08Direct(t *testing.T, d *C08Direct) *Outcome {
+	return bubbleOutcome(t, d.Seed, d.Sched, func(w *World) *Outcome {
+		o := &Outcome{}
+		s := w.Sim
+		rng := mrand.NewChaCha8(seedBytes(d.Seed, 8))
+		var shared [32]byte
+		rng.Read(shared[:])
+		a2c, _ := ref.SessionKeys(shared)
+		ctx := hap.NewContextForSecuredDevice(nil)
+		c := s.NewPair("10.0.0.2:40001", "10.0.0.1:51826")
+		var hcon *hap.Connection
+		var herr error
+		s.Inline(func() {
+			hcon = hap.NewConnection(c.Server(), ctx)
+			var sess hccrypto.Cryptographer
+			sess, herr = hccrypto.NewSecureSessionFromSharedKey(shared)
+			if herr == nil {
+				ctx.GetSessionForConnection(hcon).SetCryptographer(sess)
+				// the first (plain) write activates the cryptographer, as the pair-verify response does
+				hcon.Write([]byte("x"))
+			}
+		})
+		if herr != nil {
+			o.Harness = herr.Error()
+			return o
+		}
+		plainPrefix := len(c.Sent[1])
+		var payloads [][]byte
+		done := 0
+		for wi, ls := range d.Writers {
+			name := fmt.Sprintf("writer%d", wi)
+			ls := ls
+			wi := wi
+			s.Go(name, func() {
+				defer func() { done++ }()
+				for j, l := range ls {
+					n := l
+					if n < 0 {
+						n = -n
+					}
+					p := []byte(fmt.Sprintf("<w%d.%d:", wi, j))
+					for len(p) < n {
+						p = append(p, byte('a'+(wi*7+j+len(p))%26))
+					}
+					p = append(p[:max(n-1, len(fmt.Sprintf("<w%d.%d:", wi, j)))], '>')
+					payloads = append(payloads, p)
+					w.Step(name, "write")
+					if s.InTeardown() {
+						return
+					}
+					if l < 0 {
+						hcon.WriteEvent(p)
+					} else {
+						hcon.Write(p)
+					}
+				}
+			})
+		}
+		maxWriters := 0
+		s.OnQuiescent = func() error {
+			if n := s.ParkedCount("sockwrite", c.ID) + s.ParkedCount("wlock", -1); n > maxWriters {
+				maxWriters = n
+			}
+			return nil
+		}
+		if err := s.Run(func() bool { return done == len(d.Writers) }); err != nil {
+			o.Harness = err.Error()
+			return o
+		}
+		var fail, failSig string
+		if done != len(d.Writers) {
+			failSig, fail = "stalled", fmt.Sprintf("writers finished: %d of %d", done, len(d.Writers))
+		} else {
+			op := ref.FrameOpener{Key: a2c}
+			plain, frames, err := op.FeedFrames(c.Sent[1][plainPrefix:])
+			if err != nil {
+				failSig, fail = "frame-out-of-order", fmt.Sprintf("frame #%d on the socket does not authenticate with counter %d: counters were reused or emitted out of order", frames, frames)
+			} else if op.Buffered() > 0 {
+				failSig, fail = "partial-frame", "trailing bytes on the socket are not a whole frame"
+			} else if n, err := segmentWrites(plain, payloads); err != nil {
+				failSig, fail = "payload-not-contiguous", fmt.Sprintf("after %d intact payloads: %v", n, err)
+			}
+		}
+		if fail != "" {
+			o.Violation, o.Sig, o.Detail = "C08:"+failSig, failSig, fail+fmt.Sprintf(" [direct, writers=%v]", d.Writers)
+		}
+		if maxWriters >= 2 {
+			s.Count("probe.two_writers_parked")
+		}
+		s.Count("probe.direct_connection")
+		o.Nontrivial = maxWriters >= 2
+		o.Shape = fmt.Sprintf("direct|%v|%x", d.Writers, s.Hash())
+		return o
+	})
+}
+
 func runC08(t *testing.T, sci interface{}) *Outcome {
 	sc := sci.(*C08Scenario)
+	if sc.Direct != nil {
+		return runC08Direct(t, sc.Direct)
+	}
 	return bubbleOutcome(t, sc.Seed, sc.Sched, func(w *World) *Outcome {
 		o := &Outcome{}
 		s := w.Sim
